@@ -44,6 +44,7 @@ func dynamicSites() []site {
 		{"class-list-slice", func() *gen.Node { return el(&gen.Node{Tag: "b", ClassExprs: []string{"xs"}, Inline: txt(st("x"))}) }, false},
 		{"object-ref", func() *gen.Node { return el(&gen.Node{Tag: "u", ObjRef: "o0", Inline: txt(st("x"))}) }, false},
 		{"object-ref-prefix", func() *gen.Node { return el(&gen.Node{Tag: "u", ObjRef: `o0, "pre"`, Inline: txt(st("x"))}) }, false},
+		{"object-ref-dynamic-prefix", func() *gen.Node { return el(&gen.Node{Tag: "u", ObjRef: `o0, s0`, Inline: txt(st("x"))}) }, false},
 		{"filter-escaped", func() *gen.Node {
 			return &gen.Node{Kind: gen.KFilter, Filter: "escaped", Lines: [][]gen.Part{{st("l "), dyn("s0"), st(" r")}}}
 		}, false},
@@ -129,7 +130,7 @@ var c02Strings = []string{"neutral", `<b>`, `a"b`, `it's`, `&amp;`, `</p><script
 
 func c02(c *Ctx) {
 	c.Rep.TieObs = []string{"O-render", "O-rt (helpers, see C19)"}
-	c.Rep.Rule = "every kind of dynamic site (20) x every enclosing context (9) as its own template, rendered for every string of the adversarial alphabet (HTML metacharacters, both quotes, backslashes, controls, multi-byte and astral runes, marker look-alikes; thorough adds all 2-symbol strings); oracle: (1) generator intent: escaped sites carry html-escaped v, unescaped sites exactly v; (2) for escaped sites the token structure equals the placeholder's and v appears entity-decoded where the placeholder was; distinct = distinct (site, context, value)"
+	c.Rep.Rule = "every kind of dynamic site (21) x every enclosing context (9) as its own template, rendered for every string of the adversarial alphabet (HTML metacharacters, both quotes, backslashes, controls, multi-byte and astral runes, marker look-alikes; thorough adds all 2-symbol strings); oracle: (1) generator intent: escaped sites carry html-escaped v, unescaped sites exactly v; (2) for escaped sites the token structure equals the placeholder's and v appears entity-decoded where the placeholder was; distinct = distinct (site, context, value)"
 	f, names := siteFile()
 	prepFile(f)
 	p, src := f.Print()
